@@ -311,6 +311,8 @@ def gen_contention_theme(rng):
 
 
 def gen_params(rng, spec):
+    if rng.random() < 0.35:
+        spec["id_seed"] = rng.randrange(1000)     # IDs whose string order differs from the list order
     p = dict(rule=rng.randrange(9), autoFlag=rng.random() < 0.3, maxTime=rng.choice([0, 1, 3, 8, 40, 40, 40, 40, 40, 40]))
     r = rng.random()
     if r < 0.5:
